@@ -2077,7 +2077,12 @@ ZSTD_reset_matchState(ZSTD_matchState_t* ms,
  * if all inputs are smaller than ZSTD_INDEXOVERFLOW_MARGIN,
  * memset() will be triggered before reduceIndex().
  */
+#if defined(FACEBOOK_ZSTD_VERIF) && defined(ZSTD_VERIF_INDEXOVERFLOW_MARGIN)
+#  define ZSTD_INDEXOVERFLOW_MARGIN (ZSTD_VERIF_INDEXOVERFLOW_MARGIN)   /* verification hook, see ZSTD_CURRENT_MAX */
+#endif
+#ifndef ZSTD_INDEXOVERFLOW_MARGIN
 #define ZSTD_INDEXOVERFLOW_MARGIN (16 MB)
+#endif
 static int ZSTD_indexTooCloseToMax(ZSTD_window_t w)
 {
     return (size_t)(w.nextSrc - w.base) > (ZSTD_CURRENT_MAX - ZSTD_INDEXOVERFLOW_MARGIN);
